@@ -165,6 +165,16 @@ func txJudge(w *core.Worker, p *txProc, dir string, r txRun, initial map[string]
 func c01Case(w *core.Worker, i int) {
 	r := w.Rng(i, "")
 	p := genTxProc(r, r.Range(4, 12))
+	if i%3 == 1 && len(p.Units) > 1 && !strings.Contains(p.Text(), "CREATE TABLE") && !strings.Contains(p.Text(), "SET @@") {
+		// every third procedure prints its own results without header lines: an option of the session's output, not of the
+		// table files it commits (no table is created under it: a created table takes the option as its attribute, by design);
+		// the CSV table with a header line is among the files of the last transaction
+		last := p.Units[len(p.Units)-1]
+		p.Units = append(append([]string{"SET @@WITHOUT_HEADER TO TRUE;"}, p.Units[:len(p.Units)-1]...), "INSERT INTO `f1` (id) VALUES (99991);", last)
+	}
+	if strings.Contains(p.Text(), "SET @@") {
+		w.Count("procedures_that_set_an_output_option_of_the_session", 1)
+	}
 	base := core.FreshDir(w.Work, "base")
 	_ = os.WriteFile(filepath.Join(w.Work, "noop.sql"), []byte("PRINT 'sourced';\n"), 0644)
 	core.WriteFiles(base, p.Files)
@@ -196,6 +206,9 @@ func c01Case(w *core.Worker, i int) {
 			w.Count("procedures_whose_final_commit_is_refused", 1)
 			w.Case(digest+"/none", true)
 		} else {
+			// the procedure ended in an error the generator did not plan: still an ending — what the files hold is judged; only
+			// the enumeration of further endings is given up
+			txJudge(w, p, dir, run, initial, baseSnap, "none (the procedure ended in an error of its own)", nil)
 			w.Inconclusive(fmt.Sprintf("generated procedure fails by itself: %s", truncateStr(run.res.Stderr, 200)))
 			w.Case(digest+"/none", false)
 			return
